@@ -15,7 +15,8 @@ RULE = ("dadd +-Nmo / +-Nq / +-Ny over stdin batches for ymd, ymcw, bizda (month
         "(which starts from the cropped date), and results printed in another calendar (-f ymd / ywd). Expected: (year, month) moved by exactly k, "
         "day / count / business-day index / week / day-of-year kept and clamped to the last "
         "existing one. Non-trivial: start day-of-month >= 29, 5th weekday, week 53, day 366, "
-        "business day >= 21, or a year wrap")
+        "business day >= 21, or a year wrap"
+        " Also: a business-day step after a calendar step, days given as seconds since the epoch (-i %s), and two of the inputs per duration through the argument route (dadd DATE DUR...).")
 ASSUMPTIONS = ["reference calendar vf/refcal.py",
                "month arithmetic on ywd/yd/day numbers is documented to return the input and is not asserted",
                "steps in one invocation carry the original day through intermediate months (lazy ultimo), "
